@@ -195,7 +195,8 @@ def dataset_cases(draw):
     spec["vars"] = variables
     spec["mode"] = "decoded"
     return {"spec": spec, "units": u, "route": draw(st.sampled_from(["ems", "ems", "utils"])),
-            "scalar_time": draw(st.integers(0, 3)) == 0}
+            "scalar_time": draw(st.integers(0, 3)) == 0,
+            "retime": draw(st.integers(0, 2)) == 0}
 
 
 def check_dataset(case, ctx):
@@ -209,6 +210,21 @@ def check_dataset(case, ctx):
         if case.get("scalar_time"):
             # a single time step selected out of the series: the time coordinate is a scalar
             ds = ds.isel({spec["time"]["dim"]: 0})
+        retimed = False
+        shift = {"days": numpy.timedelta64(6, "h"), "hours": numpy.timedelta64(30, "m"),
+                 "minutes": numpy.timedelta64(15, "s")}.get(case["units"]["period"])
+        if case.get("retime") and shift is not None:
+            # the series was moved by a fraction of its unit after it was read (resampled,
+            # re-centred ...) while the variable still carries the encoding it came with, now
+            # asking for integers: the requested unit cannot hold the instants any more and the
+            # writer has to pick a finer one
+            old = ds[tname]
+            encoding = dict(old.encoding)
+            encoding["dtype"] = numpy.dtype("int32")
+            moved = xarray.Variable(old.dims, old.values + shift, dict(old.attrs))
+            ds = ds.assign_coords({tname: moved}) if tname in ds.coords else ds.assign({tname: moved})
+            ds[tname].encoding.update(encoding)
+            retimed = True
         conv = specs.bind_convention(spec, ds)
         before = list(conv.polygons)
         with specs.scratch_dir() as tmp:
@@ -251,7 +267,10 @@ def check_dataset(case, ctx):
         ctx.check(parsed is not None, "C17.units_form",
                   lambda: f"{what}: units written to the file: {raw_units!r}")
         want = reference_instant(case["units"])
-        ctx.check(parsed[1] == want and parsed[0] == case["units"]["period"], "C17.units_same_instant",
+        # (a re-timed series may legitimately be written in a finer unit: there the instants
+        # themselves, compared above, are the evidence)
+        ctx.check(retimed or (parsed[1] == want and parsed[0] == case["units"]["period"]),
+                  "C17.units_same_instant",
                   lambda: f"{what}: file says {raw_units!r} = {parsed[0]} since {parsed[1]} UTC; the "
                   f"source means {case['units']['period']} since {want} UTC")
         # fill values
@@ -269,6 +288,8 @@ def check_dataset(case, ctx):
     ctx.label(f"calendar:{spec['time'].get('calendar')}")
     if case.get("scalar_time"):
         ctx.label("scalar_time_coordinate")
+    if retimed:
+        ctx.label("retimed_series_with_integer_encoding")
     ctx.nontrivial(isinstance(off, int) and (off < 0 or abs(off) < 600 or off % 60 != 0))
 
 
